@@ -410,6 +410,26 @@ func runC10(s *spec.Spec, logPath string) {
 				probesC["pillars_of_a_moment_just_before_base"]++
 			}
 		}
+		// the caller owns the list it received: use it destructively (drain, reverse, append); a later lookup
+		// must not be affected
+		if l != nil {
+			switch (c.s.Seed + uint64(i)*7 + uint64(c.s.Run)) % 4 {
+			case 0:
+				l.Init()
+			case 1:
+				for e := l.Front(); e != nil; {
+					n := e.Next()
+					l.MoveToFront(e)
+					e = n
+				}
+			case 2:
+				if l.Len() > 0 {
+					l.Remove(l.Front())
+				}
+				l.PushBack(calendar.NewSolarFromYmd(base-1, 1, 1))
+			}
+			probesC["result_list_mutated_by_caller"]++
+		}
 	}
 	c.step = len(s.Lookups)
 	c.finish()
